@@ -5,16 +5,16 @@
 DIR="$(cd "$(dirname "$0")" && pwd)"
 BASE_OLD=05d7c43
 [ $# -eq 0 ] && set -- "$DIR"/seeded/*/
-mkdir -p /tmp/validate
+mkdir -p /root/scratch/validate
 for d in "$@"; do
   D="$(cd "$d" && pwd)"; N="$(basename "$D")"; [ -f "$D/patch.diff" ] || continue
-  WT="/tmp/validate/$N"; rm -rf "$WT"; git -C /repo worktree prune
+  WT="/root/scratch/validate/$N"; rm -rf "$WT"; git -C /repo worktree prune
   at=HEAD
   git -C /repo worktree add --detach "$WT" HEAD -q || exit 2
   if ! git -C "$WT" apply --check "$D/patch.diff" 2>/dev/null; then
     git -C /repo worktree remove --force "$WT"; git -C /repo worktree add --detach "$WT" $BASE_OLD -q || exit 2; at=$BASE_OLD
   fi
-  run_demo() { if grep -q "^def test_" "$D/demo.py" && ! grep -q '__main__' "$D/demo.py"; then (cd "$WT" && PYTHONPATH="$WT" timeout 900 /venv/bin/python -m pytest -q -p no:cacheprovider -x "$D/demo.py" >/tmp/validate/$N.demo.$1.log 2>&1; echo $?); else (cd "$WT" && PYTHONPATH="$WT" timeout 900 /venv/bin/python "$D/demo.py" >/tmp/validate/$N.demo.$1.log 2>&1; echo $?); fi; }
+  run_demo() { if grep -q "^def test_" "$D/demo.py" && ! grep -q '__main__' "$D/demo.py"; then (cd "$WT" && PYTHONPATH="$WT" timeout 900 /venv/bin/python -m pytest -q -p no:cacheprovider -x "$D/demo.py" >/root/scratch/validate/$N.demo.$1.log 2>&1; echo $?); else (cd "$WT" && PYTHONPATH="$WT" timeout 900 /venv/bin/python "$D/demo.py" >/root/scratch/validate/$N.demo.$1.log 2>&1; echo $?); fi; }
   A=$(run_demo clean)
   if git -C "$WT" apply "$D/patch.diff" 2>/dev/null; then B=$(run_demo patched); else B="patch-does-not-apply"; fi
   echo "$N: base=$at demo_clean_rc=$A demo_patched_rc=$B"
